@@ -13,13 +13,13 @@ import (
 var safeKeys = []string{"a", "b", "c", "k1", "x-y", "z_9", "0", "12", "A"}
 
 type genOpts struct {
-	keys       []string
-	maxDepth   int
-	maxFan     int
-	nulls      bool // allow nil scalars
-	empties    bool // allow empty maps/lists below the root
-	listInList bool
-	floats     bool
+	keys            []string
+	maxDepth        int
+	maxFan          int
+	nulls           bool // allow nil scalars
+	empties         bool // allow empty maps/lists below the root
+	listInList      bool
+	floats          bool
 	everyItemScalar bool // every list item contains at least one scalar
 }
 
